@@ -1,9 +1,16 @@
 """Executable oracles: exact-arithmetic emulation helpers, the per-property search for a concrete
 failing input on the implementation's outputs, and the C++-only differential checks."""
-import os, subprocess, json
+import os, subprocess, json, sys
+sys.set_int_max_str_digits(0)
 from fractions import Fraction
 from fp import FMTS, parse_tok, isnum
 from sxp import dump, parse
+
+def fstr(x):
+    try:
+        return '%.17g' % float(x)
+    except Exception:
+        return str(x)[:40]
 
 def case_line(case):
     return dump(list(case[:4]) + [[]])
@@ -108,17 +115,17 @@ def oracle_C07(results, metas, st):
                     # overflow of the 3-term smoothing sums is not claimed (data >= max/3)
                     continue
                 if all(x == 0 for x in dd) and n != o:
-                    out.append(viol('all-zero data changed the grid of dimension %d: %s -> %s' % (d, [str(x) for x in o], [str(x) for x in n]), [c]))
+                    out.append(viol('all-zero data changed the grid of dimension %d: %s -> %s' % (d, [fstr(x) for x in o], [fstr(x) for x in n]), [c]))
                 elif n[0] != 0 or n[-1] != 1:
-                    out.append(viol('refined grid of dimension %d does not run from 0 to 1: %s' % (d, [str(x) for x in n]), [c]))
+                    out.append(viol('refined grid of dimension %d does not run from 0 to 1: %s' % (d, [fstr(x) for x in n]), [c]))
                 elif any(a > b for a, b in zip(n, n[1:])):
-                    out.append(viol('refined grid of dimension %d is not non-decreasing: %s' % (d, [str(x) for x in n]), [c]))
+                    out.append(viol('refined grid of dimension %d is not non-decreasing: %s' % (d, [fstr(x) for x in n]), [c]))
         elif c[2] == 'icdf':
             bins, dims, xs, us = c[3]
             g = [parse_tok(x) for x in xs]
             fmt = FMTS[c[1]]
             pt = [parse_tok(x) for x in cx[1]]; bs = cx[2]; w = parse_tok(cx[3])
-            exact_w = Fraction(1)
+            exact_w = Fraction(1); smallest = Fraction(1)
             for d in range(dims):
                 if bs[d] >= bins:
                     out.append(viol('bin index %d of dimension %d is not below the bin count %d (u = %s)' % (bs[d], d, bins, us[d]), [c])); break
@@ -126,8 +133,10 @@ def oracle_C07(results, metas, st):
                 if not (lo <= pt[d] <= hi):
                     out.append(viol('point %s of dimension %d lies outside its reported bin [%s, %s]' % (pt[d], d, lo, hi), [c])); break
                 exact_w *= (hi - lo) * bins
+                smallest = min(smallest, abs(exact_w), abs((hi - lo) * bins)) if (hi - lo) else smallest
             else:
-                if isnum(w) and abs(w - exact_w) > 4 * dims * fmt.u * abs(exact_w) + Fraction(2) ** (fmt.emin + 2):
+                # (relative rounding-error bound; not meaningful once a factor or a partial product is subnormal)
+                if isnum(w) and smallest > Fraction(2) ** (fmt.emin + fmt.prec + 8) and abs(w - exact_w) > 4 * dims * fmt.u * abs(exact_w) + Fraction(2) ** (fmt.emin + 2):
                     out.append(viol('weight %s differs from prod(bins x width) = %s' % (w, exact_w), [c]))
     return out
 
@@ -715,4 +724,46 @@ def oracle_C19(results, metas, st):
         got = po[1]
         if isinstance(got, list) and got and got[0] == 'ok' and got[1] != j[3]:
             out.append(viol('iteration %d did not sample with the refinement of the state and adjustment data recorded in result %d' % (j[1] + 1, j[1]), [j[0]['case']])); 
+    return out
+
+
+# ---- C01: lattice-driven runs integrate multi-affine integrands exactly (to rounding) -----------------
+def oracle_C01(results, metas, st):
+    out = []
+    for r, m in zip(results, metas):
+        lat = m.get('lattice')
+        if not lat or not isinstance(r['cxx'], list): continue
+        if lat['kind'] == 'mc' and not lat.get('exact'): continue      # unaligned channel grids: the lattice rule is not exact
+        fmt = FMTS[r['case'][1]]
+        spec = r['case'][3]
+        f = [e[1] for e in spec if e[0] == 'f'][0]
+        if f[0] != 'poly': continue
+        ds = dumps_of(r['cxx'])
+        if not ds: continue
+        rs = chk_results(ds[-1])
+        k = lat.get('result', 0)
+        if k >= len(rs): continue
+        calls, nz, fin, sm, ss = rs[k]['main']
+        sm = parse_tok(sm)
+        if not isnum(sm) or calls != lat['n']: 
+            if calls != lat['n']:
+                out.append(viol('lattice iteration reports %d calls instead of %d' % (calls, lat['n']), [r['case']]))
+            continue
+        exact = Fraction(1); mag = Fraction(1)
+        for a, b in f[1]:
+            a, b = parse_tok(a), parse_tok(b)
+            exact *= a + b / 2; mag *= abs(a) + abs(b)
+        value = sm / calls
+        tol = mag * Fraction(1, 2 ** (fmt.prec // 2 - 2))
+        if abs(value - exact) > tol:
+            out.append(viol('%s driven by a complete midpoint lattice integrates the multi-affine integrand to %.9g instead of %.9g' %
+                            ({'plain': 'PLAIN', 'vegas': 'VEGAS', 'mc': 'multi-channel'}[lat['kind']], float(value), float(exact)), [r['case']]))
+    for r in results:
+        c = r['case']; cx = r['cxx']
+        if c[2] == 'mcweight' and isinstance(cx, list) and cx and cx[0] == 'ok':
+            fmt = FMTS[c[1]]
+            j = parse_tok(c[3][0]); ws = [parse_tok(x) for x in c[3][1]]; dens = [parse_tok(x) for x in c[3][2]]
+            den = sum(w * d for w, d in zip(ws, dens)); w = parse_tok(cx[1])
+            if den != 0 and isnum(w) and abs(w - j / den) > (2 * len(ws) + 4) * fmt.u * abs(j / den):
+                out.append(viol('channel weight %s is not jacobian / sum(alpha_j x density_j) = %s' % (fstr(w), fstr(j / den)), [c]))
     return out
